@@ -582,7 +582,7 @@ class Dict(dict, base.Symbolic, pg_typing.CustomTyping):
         and self.sym_parent.sym_path == self.sym_path):
       target = self.sym_parent
     return base.FieldUpdate(
-        self.sym_path + key, target, field, old_value, new_value)
+        utils.KeyPath(key, self.sym_path), target, field, old_value, new_value)
 
   def _formalized_value(
       self, name: Union[str, int],
@@ -826,8 +826,10 @@ class Dict(dict, base.Symbolic, pg_typing.CustomTyping):
     """Update Dict with the same semantic as update on standard dict."""
     updates = dict(other) if other else {}
     updates.update(kwargs)
+    # NOTE: keys are dict keys, not path expressions.
     self.rebind(
-        updates, raise_on_no_change=False, skip_notification=True)
+        {utils.KeyPath(k): v for k, v in updates.items()},
+        raise_on_no_change=False, skip_notification=True)
 
   def __ior__(self, other) -> 'Dict':  # pytype: disable=signature-mismatch
     """In-place union, with the same semantics as `update`."""
